@@ -11,6 +11,7 @@ from vlib import draws
 
 draws.install()
 from vlib import engine, hints, spies   # noqa: E402
+import beartype   # noqa: E402
 
 RULE = ('container-bearing hints built from 1-3 nested levels (sequence / reiterable / quasi-iterable / mapping '
         'value / mapping key families, optionally wrapped in Optional, Annotated or a fixed tuple) x spy objects of '
@@ -120,6 +121,52 @@ def build(names, leaf, factories, sizes, bad, level=0, bad_index=None):
     return cls(data, _tag=tag)
 
 
+_fwd_seq = [0]
+
+
+class FwdSubject:
+    """The hint reached through a forward reference: a decorated callable annotated by the *name* of a module
+    attribute bound to the hint only after decoration (checked, and described, through the reference proxy)."""
+    ENTRY_POINTS = ('param', 'return')
+
+    def __init__(self, hint, cs):
+        from vlib import hintenv
+        from beartype.roar import BeartypeHintViolation
+        self.viol = BeartypeHintViolation
+        self.prep_error = {}
+        self.cs = cs
+        _fwd_seq[0] += 1
+        name = f'C09Later{os.getpid()}_{_fwd_seq[0]}'
+
+        def fp(a):
+            return None
+
+        def fr(a):
+            return a
+        fp.__annotations__ = {'a': name}
+        fr.__annotations__ = {'return': name}
+        self.f = {}
+        for where, f in (('param', fp), ('return', fr)):
+            f.__module__ = 'vlib.hintenv'
+            try:
+                self.f[where] = beartype.beartype(conf=cs.conf())(f)
+            except Exception as e:   # noqa
+                self.prep_error[where] = e
+        setattr(hintenv, name, hint)          # ... defined later
+
+    def run(self, ep, x, r):
+        with draws.armed(r):
+            try:
+                self.f[ep](x)
+                return engine.Outcome('accept')
+            except self.viol as e:
+                return engine.Outcome('reject', exc=e)
+            except (KeyboardInterrupt, SystemExit):
+                raise
+            except BaseException as e:   # noqa
+                return engine.Outcome('error', exc=e)
+
+
 def main():
     W = Worker('C09', RULE, assumptions=[
         'reads = items produced by iteration plus __getitem__ calls, as logged by the spy containers',
@@ -189,7 +236,13 @@ def main():
         if variant == 'onebad' and factories[0] not in ('SpyList', 'SpyTuple', 'PySequence'):
             variant = 'allbad'
         cs = engine.ConfSpec(**({'is_random': False} if rng.random() < .3 else {}))
-        subj = engine.Subject(hint, cs)
+        # one case in five reaches the hint through a forward reference resolved at call time
+        fwd = variant != 'onebad' and rng.random() < .2
+        subj = FwdSubject(hint, cs) if fwd else engine.Subject(hint, cs)
+        entry_points = FwdSubject.ENTRY_POINTS if fwd else engine.ENTRY_POINTS
+        if fwd:
+            src = f"'Later' (forward reference to {src})"
+            W.count('forward_referenced_cases')
         if subj.prep_error:
             where, e = next(iter(subj.prep_error.items()))
             W.violation('error:' + engine.exc_site(e), f'preparing {src}: {e!r}', 'shape', idx, dict(hint=src))
@@ -199,7 +252,7 @@ def main():
         W.add('variants', variant)
         r = rng.choice((0, 1, 5, 2**31 + 3, rng.getrandbits(32)))
         stop = False
-        for ep in engine.ENTRY_POINTS:
+        for ep in entry_points:
             if stop:
                 break
             vecs = {}
@@ -229,7 +282,9 @@ def main():
                 deciding = ep.endswith('is_bearable') or out.verdict == 'accept'
                 for lvl, kind in enumerate(kinds):
                     rd = spies.reads(f'L{lvl}')
-                    bound = READ_BOUND[kind] if deciding else 4
+                    # (through a reference proxy the object is checked once to decide and again, by the proxy's own
+                    # is_bearable / describing hooks, to explain: a larger constant, still no function of the size)
+                    bound = (READ_BOUND[kind] if deciding else 4) * (4 if fwd else 1)
                     # a level below a level read k times can itself be read k times as often
                     mult = 1
                     if not deciding:
@@ -268,6 +323,7 @@ def main():
             W.sample(dict(hint=src, spies=factories, scaled_level=scaled, variant=variant, sizes=list(SIZES),
                           conf=cs.kw, draw=r))
 
+    W.need('forward_referenced_cases', 20)
     W.need('size_sweeps', 300)
     W.need('sweeps.accept', 50)
     W.need('sweeps.reject', 50)
